@@ -11,7 +11,7 @@
 //! every list sorted (schedule-independent).
 
 use std::collections::{BTreeMap, HashMap, HashSet};
-use std::sync::atomic::{AtomicBool, Ordering};
+use std::sync::atomic::{AtomicBool, AtomicUsize, Ordering};
 use std::sync::{Arc, Mutex};
 
 use nexosim::model::{BuildContext, Context, InitializedModel, Model, ProtoModel};
@@ -302,6 +302,51 @@ fn wod(threads: usize, n: usize, waiters: &[usize], edges: &[(usize, usize)], pa
             }
         }
         Err(_) => ("wod - hung".to_string(), true),
+    }
+}
+
+/// Wide flat bench (`wide <threads> <n>`): `n` models, each counting its init and its events.
+struct Cnt {
+    inits: Arc<AtomicUsize>,
+    hits: Arc<AtomicUsize>,
+}
+impl Cnt {
+    async fn hit(&mut self, _x: u64) {
+        self.hits.fetch_add(1, Ordering::SeqCst);
+    }
+}
+impl Model for Cnt {
+    async fn init(self, _cx: &mut Context<Self>) -> InitializedModel<Self> {
+        self.inits.fetch_add(1, Ordering::SeqCst);
+        self.into()
+    }
+}
+fn wide(threads: usize, n: usize) -> String {
+    let inits = Arc::new(AtomicUsize::new(0));
+    let hits = Arc::new(AtomicUsize::new(0));
+    let mut si = SimInit::with_num_threads(threads);
+    let mut addrs = Vec::new();
+    for i in 0..n {
+        let mb = Mailbox::new();
+        addrs.push(mb.address());
+        si = si.add_model(Cnt { inits: inits.clone(), hits: hits.clone() }, mb, format!("c{i}"));
+    }
+    match si.init(MonotonicTime::EPOCH) {
+        Ok((mut sim, sched)) => {
+            let i1 = inits.load(Ordering::SeqCst);
+            for a in &addrs {
+                let _ = sched.schedule_event(std::time::Duration::from_secs(1), Cnt::hit, 1, a);
+            }
+            let r = sim.step();
+            let h1 = hits.load(Ordering::SeqCst);
+            // a second round through process_event (one injected task each)
+            for a in addrs.iter().take(3) {
+                let _ = sim.process_event(Cnt::hit, 2, a);
+            }
+            let h2 = hits.load(Ordering::SeqCst) - h1;
+            format!("wide {} inits={i1}/{n} hits={h1}/{n} then={h2}/{}", if r.is_ok() { "ok" } else { "err" }, n.min(3))
+        }
+        Err(e) => format!("wide init-{}", exec_err(&e)),
     }
 }
 
@@ -913,6 +958,16 @@ impl Engine for Net {
                     out.tags.push("wod".into());
                     r
                 }
+                ["wide", th, n] => {
+                    let (th, n): (usize, usize) = (th.parse().unwrap(), n.parse().unwrap());
+                    let r = wide(th, n);
+                    if r != format!("wide ok inits={n}/{n} hits={n}/{n} then={}/{}", n.min(3), n.min(3)) {
+                        out.monitor.push(("C04".into(), format!("a flat bench of {n} models on {th} thread(s): init, then one event per model due at the same time, then step: `{r}` — a call returned Ok although computations it had triggered never ran (every model must run its init and handle its event)")));
+                    }
+                    out.nontrivial = true;
+                    out.tags.push(format!("wide.{}", if n > 128 { "over-one-bucket" } else { "small" }));
+                    r
+                }
                 ["nested", k, j] => {
                     let (k, j): (usize, usize) = (k.parse().unwrap(), j.parse().unwrap());
                     let r = nested(k, j);
@@ -1162,6 +1217,11 @@ impl Engine for Net {
 fn gen_case(rng: &mut Rng, _idx: usize, tier: Tier, focus: &str) -> Case {
     if (focus == "C19" && rng.chance(1, 10)) || rng.chance(1, 60) {
         return Case { lines: vec!["case net exec st".into(), format!("nested {} {}", rng.below(5), rng.below(5))] };
+    }
+    if (focus == "C04" && rng.chance(1, 12)) || rng.chance(1, 80) {
+        // many models / many simultaneous events: more tasks than one injector bucket or one local queue holds
+        let n = *rng.pick(&[1u64, 7, 100, 127, 128, 129, 130, 200, 257, 300, 520, 700]);
+        return Case { lines: vec!["case net exec st".into(), format!("wide {} {n}", rng.pick(&[1u64, 2, 2, 3, 4, 8]))] };
     }
     if (focus == "C19" && rng.chance(1, 5)) || rng.chance(1, 60) {
         // models owning wake-on-drop objects; some models pending; optionally a handler that sends and then panics
